@@ -60,6 +60,12 @@ def insert_noise(rng, src, n):
         elif k == "symbol":
             e = etree.Element("{%s}symbol" % SVG)
             etree.SubElement(e, "{%s}circle" % SVG, attrib={"r": "3"})
+            if rng.random() < 0.4:
+                # content that would not convert on its own: an id-less symbol is discarded whole, whatever it holds
+                if rng.random() < 0.5:
+                    etree.SubElement(e, "{%s}use" % SVG, attrib={"{http://www.w3.org/1999/xlink}href": "#no-such-target"})
+                else:
+                    etree.SubElement(e, "{%s}rect" % SVG, attrib={"width": "oops", "height": "2"})
             target.insert(pos, e)
         elif k == "wrapper":
             # wrap a run of consecutive rendered children of a group / the root into an attribute-less g
@@ -80,7 +86,8 @@ def insert_noise(rng, src, n):
             target.text = (target.text or "") if len(target) == 0 else "\n   "
     out = etree.tostring(root).decode("utf-8")
     if rng.random() < 0.5:
-        out = '<?xml version="1.0" encoding="UTF-8"?>\n' + out
+        out = rng.choice(['<?xml version="1.0" encoding="UTF-8"?>\n', '<?xml version="1.0"\n     encoding="UTF-8"?>\n',
+                          "<?xml version='1.0' encoding='utf-8' standalone='no'?>\n", '<?xml version="1.0"?>']) + out
     return out
 
 
@@ -114,6 +121,23 @@ def canon_output(text):
     # unused namespace *declarations* left on inner elements are not content (noted in DESIGN §6)
     etree.cleanup_namespaces(root)
     return etree.tostring(root).decode("utf-8")
+
+
+NUM = re.compile(r"-?\d+\.\d+(?:[eE][-+]?\d+)?")
+
+
+def same_output(c1, c2):
+    """canonical outputs agree: identical text, numbers compared with a tolerance of 2 units of the fifth decimal (the
+    noise may change the order of float operations, and a value sitting on a rounding boundary must not flip the verdict)"""
+    if c1 == c2:
+        return True
+    if NUM.sub("#", c1) != NUM.sub("#", c2):
+        return False
+    for a, b in zip(NUM.findall(c1), NUM.findall(c2)):
+        x, y = float(a), float(b)
+        if abs(x - y) > 2e-5 * max(1.0, abs(x)):
+            return False
+    return True
 
 
 def correspondence(ctx):
@@ -157,11 +181,38 @@ def wrapper_equal(a, b):
     return a == b
 
 
+H_ = '<svg xmlns="http://www.w3.org/2000/svg" viewBox="0 0 10 10">'
+# pairs that run first on every run: noise at the string level, which the tree-level inserter cannot place
+CORPUS_PAIRS = [
+    (H_ + '<defs><path id="a" d="M0,0 L5,0 L5,5 Z"/></defs><use xlink:href="#a"/></svg>',
+     H_ + '<defs><path id="a" d="M0,0 L5,0 L5,5 Z"/></defs><!-- xmlns:xlink --><use xlink:href="#a"/></svg>'),
+    (H_ + '<rect width="5" height="5"/></svg>', H_ + '<foo xmlns=""/><rect width="5" height="5"/></svg>'),
+    (H_ + '<g opacity="0.5"><rect width="5" height="5"/><circle r="2"/></g></svg>',
+     H_ + '<g opacity="0.5"><rect width="5" height="5"/><bar xmlns=""><rect xmlns="http://www.w3.org/2000/svg" width="1" height="1"/></bar><circle r="2"/></g></svg>'),
+    (H_ + '<path d="M0,0 L1,1 L1,0 Z"/></svg>', '<?foo a?>' + H_ + '<path d="M0,0 L1,1 L1,0 Z"/></svg>'),
+    (H_ + '<path d="M0,0 L1,1 L1,0 Z"/></svg>', '<?xml version="1.0"\n   encoding="UTF-8"?>\n<!-- c -->\n' + H_ + '<path d="M0,0 L1,1 L1,0 Z"/></svg><!-- after -->'),
+]
+
+
+def convert_inplace(SVG_, text):
+    svg = SVG_.fromstring(text)
+    svg.topicosvg(inplace=True)
+    return svg.tostring()
+
+
 def search(ctx, disagreements):
     SVG_ = pipeline.impl()
-    pairs = getattr(ctx, "_pairs", None) or []
+    pairs = CORPUS_PAIRS + (getattr(ctx, "_pairs", None) or [])
     found = []
     nontrivial = 0
+    for src, noisy in CORPUS_PAIRS:
+        # the in-place form too (the copying form deep-copies the root element only)
+        o1, out1 = common.outcome_of(lambda: convert_inplace(SVG_, src))
+        o2, out2 = common.outcome_of(lambda: convert_inplace(SVG_, noisy))
+        ctx.count("inplace-pair:%s/%s" % (o1, o2))
+        if o1 == "ok" and (o2 != "ok" or not same_output(canon_output(out1), canon_output(out2))):
+            found.append({"kind": "noise", "input": {"D": src, "N(D)": noisy, "inplace": True},
+                          "detail": "topicosvg(inplace=True): D converts but N(D) %s" % ("raises " + o2 if o2 != "ok" else "gives a different document")})
     for src, noisy in pairs:
         o1, out1 = common.outcome_of(lambda: SVG_.fromstring(src).topicosvg().tostring())
         o2, out2 = common.outcome_of(lambda: SVG_.fromstring(noisy).topicosvg().tostring())
@@ -175,7 +226,7 @@ def search(ctx, disagreements):
             found.append({"kind": "noise", "input": {"D": src, "N(D)": noisy}, "detail": "D converts but N(D) raises %s" % o2})
             continue
         c1, c2 = canon_output(out1), canon_output(out2)
-        if c1 != c2:
+        if not same_output(c1, c2):
             found.append({"kind": "noise", "input": {"D": src, "N(D)": noisy},
                           "detail": "convert(N(D)) differs from convert(D): %s" % diff_hint(c1, c2)})
     ctx.stats["distinct_nontrivial"] = nontrivial
@@ -200,6 +251,6 @@ def replay(ctx, payload):
         src, noisy = payload["input"]["D"], payload["input"]["N(D)"]
         o1, out1 = common.outcome_of(lambda: SVG_.fromstring(src).topicosvg().tostring())
         o2, out2 = common.outcome_of(lambda: SVG_.fromstring(noisy).topicosvg().tostring())
-        fails = o1 == "ok" and (o2 != "ok" or canon_output(out1) != canon_output(out2))
+        fails = o1 == "ok" and (o2 != "ok" or not same_output(canon_output(out1), canon_output(out2)))
         return {"fails": fails, "D": (o1, out1), "N(D)": (o2, out2)}
     return {"fails": bool(ctx.tie_breaks), "no_longer_checks": ctx.tie_breaks}
